@@ -546,7 +546,7 @@ func init() {
 	fw.Register(&fw.Property{
 		ID:    "C03",
 		Level: "exploration",
-		Rule: "a fixed universe of file paths (thorough: 323 paths of depth <=3 over directory names {a,b,ab,.terraform,modules,.git} and file names {a.b,a+b,x.tf,aab,c,a,b,ab}; quick: a 106-path subset) is shipped under generated rule files: every single rule over 19 segment patterns (lit, *, ?, a*, *b, [ab], *.tf, **, ...) of 1-2 segments (+ selected 3) x {floating, anchored} x {plain, negated} x {file, dir}; all ordered pairs of a 40-rule core (quick) / 60-rule core (thorough) and all ordered triples of a 25-rule core + PRNG files of 3-7 lines with comments, blanks, padding, CRLF (thorough); " +
+		Rule: "a fixed universe of file paths (thorough: 323 paths of depth <=3 over directory names {a,b,ab,.terraform,modules,.git} and file names {a.b,a+b,x.tf,aab,c,a,b,ab}; quick: a 106-path subset) is shipped under generated rule files: every single rule over 19 segment patterns (lit, *, ?, a*, *b, [ab], *.tf, **, ...) of 1-2 segments (+ selected 3) x {floating, anchored} x {plain, negated} x {file, dir}; all ordered pairs of a 40-rule core (quick) / 60-rule core (thorough) and all ordered triples of a 25-rule core + PRNG files of 3-7 lines with comments, blanks, padding, CRLF (thorough); each file ends with LF, CR LF or no terminator depending on its text; " +
 			"each through Pack with ignore on, Pack with ignore off, Pack through a dereferenced external directory (archive paths ext/...), and a one-package bundle build. The set of shipped files must equal the set the reference matcher includes. " +
 			"non-trivial = the rule file flips the verdict of >=1 path relative to the default rules; distinct = rule file text x modes",
 		Assumptions: []string{"ref/glob.go is the documented rule language; directory entries are not judged, only files by their own path", "patterns whose meaning the documentation does not fix (backslash escapes, ** glued to other characters, unterminated [) are left to C19"},
